@@ -138,8 +138,16 @@ def manufactured_deck(rnd, nslides=3):
     prs.save(buf)
     data = buf.getvalue()
     n = nslides
-    cls = rnd.choice(["dense-permuted", "dense-permuted", "gapped", "gapped", "ascending-shifted", "ascending-with-hole", "last-is-n"])
-    if cls == "dense-permuted":  # 1..n, not in presentation order
+    cls = rnd.choice(["dense-permuted", "dense-permuted", "gapped", "gapped", "ascending-shifted", "ascending-with-hole", "last-is-n", "other-folder"])
+    folder = "/ppt/slides"
+    if cls == "other-folder":
+        # the slides live in a folder of their own (OPC leaves part names to the producer): python-pptx renames them into
+        # /ppt/slides, and their relationships - written relative to the source part's folder - must follow
+        folder = rnd.choice(["/ppt/slides/part1", "/ppt/s", "/slides"])
+        cls = rnd.choice(["dense-permuted", "gapped", "plain"])
+    if cls == "plain":
+        nums = list(range(1, n + 1))
+    elif cls == "dense-permuted":  # 1..n, not in presentation order
         nums = list(range(1, n + 1))
         while nums == sorted(nums):
             rnd.shuffle(nums)
@@ -158,7 +166,7 @@ def manufactured_deck(rnd, nslides=3):
             nums = list(reversed(nums))
     # two-step rename through temporary names to allow permutations
     m1 = {"/ppt/slides/slide%d.xml" % (i + 1): "/ppt/slides/tmpslide%d.xml" % (i + 1) for i in range(nslides)}
-    m2 = {"/ppt/slides/tmpslide%d.xml" % (i + 1): "/ppt/slides/slide%d.xml" % nums[i] for i in range(nslides)}
+    m2 = {"/ppt/slides/tmpslide%d.xml" % (i + 1): "%s/slide%d.xml" % (folder, nums[i]) for i in range(nslides)}
     data = rename_members(rename_members(data, m1), m2)
     if blank_link:
         # the hyperlink relationship of slide 1 as a producer leaves it after the link was "cleared": Target="" (still referred to by
